@@ -1295,6 +1295,8 @@ class MapIter(Iter):
     """Iteration over a hash container: arbitrary order (forked) unless hash_order == 'insertion'.
     BTree containers iterate in key order."""
 
+    hashed = False
+
     def __init__(self, ctx, mp, mode):
         self.mode = mode
         ents = list(mp.entries)
@@ -1303,6 +1305,7 @@ class MapIter(Iter):
             self.ordered = True
         else:
             self.ordered = ctx.hash_order != 'all'
+            self.hashed = True
         self.rest = ents
 
     def nxt(self, ctx):
